@@ -246,6 +246,20 @@ func (s *State) sendReloadCmd(withDo bool) {
 		cmd = "do " + cmd
 	}
 	out := s.Conn.IssueCmd(cmd, `\[yes\/no\]:\ |\[confirm\]`)
+	// Output in front of echo of command is delayed output of
+	// previous command, if a reload banner with additional prompt
+	// was shown directly behind the echo of that command.
+	// Only an additional prompt is expected here.
+	// Abort after reload dialog has been finished.
+	unexpected := ""
+	if before, _, found := strings.Cut(out, cmd); found {
+		for _, line := range strings.Split(before, "\n") {
+			line = strings.TrimSpace(line)
+			if line != "" && !strings.HasSuffix(line, "#") {
+				unexpected = before
+			}
+		}
+	}
 	// System configuration has been modified. Save? [yes/no]:
 	if strings.Contains(out, "[yes/no]") {
 		// Leave our changes unsaved, to be sure that a reload
@@ -255,6 +269,9 @@ func (s *State) sendReloadCmd(withDo bool) {
 	// Confirm the reload with empty command, wait for the standard prompt.
 	s.reloadActive = true
 	s.Conn.SendCmd("")
+	if unexpected != "" {
+		errlog.Abort("Got unexpected output before '%s':\n%s", cmd, unexpected)
+	}
 }
 
 func (s *State) cancelReload() {
